@@ -72,6 +72,13 @@ class ModuleInfo:
                 for n in cls.body:
                     if isinstance(n, (ast.FunctionDef, ast.AsyncFunctionDef)) and n.name == parts[1]:
                         node = n      # last definition wins, as in Python
+                if node is not None and len(parts) == 3:
+                    # 'Class.method.closure': a function defined directly in the method's body (its free variables
+                    # are bound by the sidecar's setup hook)
+                    outer, node = node, None
+                    for n in outer.body:
+                        if isinstance(n, (ast.FunctionDef, ast.AsyncFunctionDef)) and n.name == parts[2]:
+                            node = n
         if node is None:
             raise KeyError(f'{self.name}:{qualname} not found')
         return node
